@@ -98,6 +98,13 @@ SetBuffers(i, lead, trail, force) ==
     IN /\ lead # None \/ trail # None
        /\ Mutate(i, o2, [op |-> "SetBuffers", a |-> i, lead |-> lead, trail |-> trail, force |-> force])
 
+(* set_buffers with a negative trailing time: the leading buffers have already been changed in place when the
+   ValueError is raised (the definition changed), so the cache must not survive *)
+SetBuffersFail(i, lead, force) ==
+    LET o == objs[i]  Sb(c) == SetBuf(c, lead, None, force)
+        o2 == [g |-> o.g, comps |-> MapC(o.comps, Sb), cache |-> <<>>]
+    IN Mutate(i, o2, [op |-> "SetBuffersFail", a |-> i, lead |-> lead, trail |-> -2, force |-> force])
+
 Resample(i, n) == LET o == objs[i]
                       span == o.g[Len(o.g)] - o.g[1]
                   IN /\ n >= 2 /\ n # Len(o.g) /\ span % (n - 1) = 0
@@ -130,6 +137,7 @@ Next == \/ \E g \in Grids, fn \in Fns : New(g, fn)
         \/ \E i \in 1..Len(objs), k \in Divs : IDiv(i, k)
         \/ \E i \in 1..Len(objs), d \in Delays, gn \in Gains, fr \in BOOLEAN : Filter(i, d, gn, fr)
         \/ \E i \in 1..Len(objs), ld \in Buffers, tr \in Buffers, f \in BOOLEAN : SetBuffers(i, ld, tr, f)
+        \/ \E i \in 1..Len(objs), ld \in Buffers, f \in BOOLEAN : SetBuffersFail(i, ld, f)
         \/ \E i \in 1..Len(objs), n \in Resamples : Resample(i, n)
         \/ \E i \in 1..Len(objs), g \in Grids : AssignTimes(i, g)
         \/ \E i \in 1..Len(objs) : Copy(i)
@@ -142,7 +150,7 @@ Spec == Init /\ [][Next]_vars
 NoStale == \A i \in 1..Len(objs) : objs[i].cache # <<>> => objs[i].cache[1] = Eval(objs[i])
 ReadIsEager == last.op = "Read" => last.res = last.fresh
 (* a new object is independent of its operands: operations on one never change the other's meaning *)
-Target == IF last'.op \in {"Shift", "IMul", "IDiv", "Filter", "SetBuffers", "Resample", "AssignTimes", "Read"}
+Target == IF last'.op \in {"Shift", "IMul", "IDiv", "Filter", "SetBuffers", "SetBuffersFail", "Resample", "AssignTimes", "Read"}
           THEN {last'.a} ELSE {}
 Independent == [][\A i \in 1..Len(objs) : i \notin Target => Eval(objs'[i]) = Eval(objs[i])]_vars
 =============================================================================
